@@ -1233,7 +1233,13 @@ func (c *TermCtx) Eval(t *Term, m Model) (uint64, bool) {
 		case OConst:
 			return t.val
 		case OVar:
-			return m[t.name] & maskB(t.w)
+			if v, ok := m[t.name]; ok {
+				return v & maskB(t.w)
+			}
+			if t.ranged {
+				return t.rlo
+			}
+			return 0
 		}
 		if v, ok := memo[t.id]; ok {
 			return v
